@@ -578,6 +578,27 @@ def c10(v, h, op, res, k, prev, pools):
                      {'instance': name, 'free': free, 'expected': exp, 'cores': cores})
 
 
+def c10_memory(v, h, op, res, k, mem, pools):
+    """ "the free cores recorded by the service": the driver keeps a copy of every instance's free cores in memory (Instance.free_cores_mcpu,
+    used by the scheduler to place jobs), maintained by the REAL bookkeeping of batch/driver/job.py + the pool scheduler's reservation
+    around schedule_job (runner.py).  After every op, for every instance that is live (pending / active) in the database, that the
+    driver knows under the same state, and that received no worker message the real service would have refused (active_instances_only):
+    in-memory free cores == instances_free_cores_mcpu.free_cores_mcpu."""
+    if not mem:
+        return
+    for name, mstate, mfree, unauth in mem:
+        row = v.instances.get(name)
+        if row is None:
+            continue
+        _n, state, cores, free = row
+        if state not in ('pending', 'active') or mstate != state or unauth:
+            continue
+        if mfree != free:
+            kind = 'pool' if pools.get(name, True) else 'job-private'
+            h.report('C10', f'C10:in-memory-free-cores:{state}-{kind}-instance:after-{op["op"]}', k,
+                     {'instance': name, 'in_memory_free': mfree, 'database_free': free, 'cores': cores, 'answer': res})
+
+
 def c39_safety(v, h, op, res, k, prev):
     for j in v.jobs.values():
         if j.state in ('Creating', 'Running'):
@@ -651,7 +672,7 @@ def flatten_races(ops, ents):
             continue
         x, y = info['order']
         o2 += [op[x], op[y]]
-        e2 += [{'result': info[x], 'obs': ent.get('obs_mid') or ent['obs']}, {'result': info[y], 'obs': ent['obs']}]
+        e2 += [{'result': info[x], 'obs': ent.get('obs_mid') or ent['obs']}, {'result': info[y], 'obs': ent['obs'], 'mem': ent.get('mem')}]
         orig += [i, i]
     return o2, e2, orig
 
@@ -725,6 +746,7 @@ def check_history(ops, ents, props=None):
         c07(v, h, op, res, k, prev)
         c09(v, h, op, res, k, prev, seen)
         c10(v, h, op, res, k, prev, pools)
+        c10_memory(v, h, op, res, k, ent.get('mem'), pools)
         c39_safety(v, h, op, res, k, prev)
         c41(v, h, op, res, k, prev)
         prev = v
